@@ -1516,6 +1516,13 @@ func (e *Entry) dup() *Entry {
 		ne.Extra[k] = v
 	}
 
+	// ListAttr is modified in place by deviations, so every copy needs
+	// its own.
+	if e.ListAttr != nil {
+		la := *e.ListAttr
+		ne.ListAttr = &la
+	}
+
 	return &ne
 }
 
